@@ -202,8 +202,15 @@ type httpResp struct {
 }
 
 func (r *rie) invoke(body []byte, hdr map[string]string) httpResp {
-	req, _ := http.NewRequest("POST", "http://"+r.front+"/2015-03-31/functions/function/invocations", bytes.NewReader(body))
+	var rd io.Reader = bytes.NewReader(body)
+	if hdr["__chunked"] != "" {
+		rd = struct{ io.Reader }{rd} // length not announced: sent with Transfer-Encoding: chunked
+	}
+	req, _ := http.NewRequest("POST", "http://"+r.front+"/2015-03-31/functions/function/invocations", rd)
 	for k, v := range hdr {
+		if strings.HasPrefix(k, "__") {
+			continue
+		}
 		req.Header.Set(k, v)
 	}
 	t0 := time.Now()
@@ -300,10 +307,14 @@ func runP(c *Ctx, d pDesc) {
 	switch d.Kind {
 	case "roundtrip":
 		rnd := rng(c.Seed, "binary-roundtrip")
-		for i, sz := range []int{0, 1, 1000, 1 << 20, maxPayload, 17} {
+		for i, sz := range []int{0, 1, 1000, 1 << 20, maxPayload, 17, 300000, 9} {
 			body := randBytes(rnd, sz)
 			cc := fmt.Sprintf(`{"custom":{"i":"%d é"}}`, i)
-			h := r.invoke(body, map[string]string{"X-Amz-Client-Context": base64.StdEncoding.EncodeToString([]byte(cc))})
+			hd := map[string]string{"X-Amz-Client-Context": base64.StdEncoding.EncodeToString([]byte(cc))}
+			if i%2 == 1 || i >= 6 {
+				hd["__chunked"] = "1"
+			}
+			h := r.invoke(body, hd)
 			want := append([]byte("BIN:"), body...)
 			if len(want) > maxPayload {
 				// the response would exceed the limit: expect the oversize error instead
@@ -336,7 +347,7 @@ func runP(c *Ctx, d pDesc) {
 					n++
 				}
 			}
-			c.Check(n == 6, "binary_extension_events", fmt.Sprintf("%s/binary/extension-event-count/%d", P, n), "the real extension process did not receive one INVOKE event per invocation", n)
+			c.Check(n == 8, "binary_extension_events", fmt.Sprintf("%s/binary/extension-event-count/%d", P, n), "the real extension process did not receive one INVOKE event per invocation", n)
 		}
 	case "concurrent":
 		n, _ := strconv.Atoi(d.Arg)
